@@ -70,7 +70,7 @@ def norm_value(kind, v):
                 by = m21.extensions[key]["by_name"]
                 out[key] = {n: norm_value(by.get(n), x) for n, x in ext.items()}
             elif key == "x-stixmon-ext" and isinstance(ext, dict):
-                out[key] = {n: (norm_value({"k": "ts", "precision": "any", "constraint": "exact"}, x) if n == "at" else x) for n, x in ext.items()}
+                out[key] = {n: (norm_value({"k": "ts", "precision": "any", "constraint": "exact"}, x) if n == "seen_at" else x) for n, x in ext.items()}
             else:
                 out[key] = ext
         return out
